@@ -57,3 +57,21 @@ def drive(tree, out_dir, flavour):
     cc(["gcc", "-O1", "-g", "-DNDEBUG", "-I" + str(src)] + san +
        [str(NATIVE / "drive.c"), str(src / "dd_dtw.c"), str(src / "dd_ed.c"), "-lm", "-o", str(exe)], out_dir)
     return exe
+
+
+def drive_coverage(tree, out_dir, seed):
+    """gcov line coverage per function of dd_dtw.c / dd_ed.c reached by the C08 native driver"""
+    import re
+    src = build.csrc(tree)
+    out_dir = Path(out_dir) / "cov"
+    out_dir.mkdir(parents=True, exist_ok=True)
+    exe = out_dir / "drive_cov"
+    cc(["gcc", "--coverage", "-O0", "-g", "-DNDEBUG", "-I" + str(src), str(NATIVE / "drive.c"), str(src / "dd_dtw.c"),
+        str(src / "dd_ed.c"), "-lm", "-o", str(exe)], out_dir)
+    subprocess.run([str(exe), "4", "0", "2", str(seed)], cwd=out_dir, capture_output=True, timeout=600)
+    res = {}
+    for gcda in sorted(out_dir.glob("*dd_*.gcda")):
+        t = subprocess.run(["gcov", "-f", "-o", ".", gcda.name], cwd=out_dir, capture_output=True, text=True).stdout
+        for m in re.finditer(r"Function '(\w+)'\nLines executed:([\d.]+)% of (\d+)", t):
+            res[m.group(1)] = [float(m.group(2)), int(m.group(3))]
+    return res
